@@ -240,29 +240,29 @@ mod nulls {
         }
     }
     pub fn mirror() -> J {
-        let null = || json!({"k": "null"});
+        let nul = || json!({"k": "null"});
         let list = |t: J| json!({"k": "list", "of": t});
         json!({"query": "Query", "mutation": "", "subscription": "Subscription",
             "directives": {"@hinted": {"repeatable": false, "locations": ["FIELD_DEFINITION"],
-                "args": {"hint": {"ty": named("String"), "default": null()}, "level": {"ty": nn(named("Int")), "default": {"k": "int", "v": "0"}}}}},
+                "args": {"hint": {"ty": named("String"), "default": nul()}, "level": {"ty": nn(named("Int")), "default": {"k": "int", "v": "0"}}}}},
             "types": {
                 "Filter": with(ty("INPUT_OBJECT"), "inputFields", json!({
-                    "tag": {"ty": named("String"), "default": null()},
-                    "ids": {"ty": list(nn(named("Int"))), "default": null()},
+                    "tag": {"ty": named("String"), "default": nul()},
+                    "ids": {"ty": list(nn(named("Int"))), "default": nul()},
                     "limit": {"ty": nn(named("Int")), "default": {"k": "int", "v": "0"}},
                     "size": {"ty": named("Int"), "default": {"k": "int", "v": "5"}},
                     "plain": {"ty": named("Int"), "default": none()},
-                    "inner": {"ty": named("Filter"), "default": null()}})),
+                    "inner": {"ty": named("Filter"), "default": nul()}})),
                 "Query": with(ty("OBJECT"), "fields", json!({
                     "find": {"ty": nn(named("Int")), "args": {
-                        "name": {"ty": named("String"), "default": null()},
+                        "name": {"ty": named("String"), "default": nul()},
                         "first": {"ty": named("Int"), "default": {"k": "int", "v": "3"}},
                         "plain": {"ty": named("Int"), "default": none()},
-                        "filter": {"ty": named("Filter"), "default": null()},
-                        "flags": {"ty": list(named("Boolean")), "default": null()}}}})),
+                        "filter": {"ty": named("Filter"), "default": nul()},
+                        "flags": {"ty": list(named("Boolean")), "default": nul()}}}})),
                 "Subscription": with(ty("OBJECT"), "fields", json!({
                     "ticks": {"ty": nn(named("Int")), "args": {
-                        "every": {"ty": named("Int"), "default": null()},
+                        "every": {"ty": named("Int"), "default": nul()},
                         "n": {"ty": nn(named("Int")), "default": {"k": "int", "v": "0"}}}}}))}})
     }
     pub fn sdl(o: SDLExportOptions) -> String { Schema::build(Query, EmptyMutation, Subscription).finish().sdl_with_options(o) }
